@@ -62,7 +62,7 @@ FIELDS = {
 # ----------------------------------------------------------------------------------------------
 
 OP_KINDS = ["getitem", "getitem", "getitem2", "nps", "nps", "ts_at", "ts_at_no", "seq",
-            "render", "render", "compare", "hash", "prop", "assign", "tickq", "iterate"]
+            "render", "render", "compare", "hash", "prop", "assign", "tickq", "iterate", "clone"]
 
 
 def _gen_op(r: Any, doc: dict[str, Any], present: list[str], ticks: list[int],
@@ -138,6 +138,9 @@ def _gen_op(r: Any, doc: dict[str, Any], present: list[str], ticks: list[int],
                 "tick": tick, "which": r.choice(["during", "after"])}
     if kind == "iterate":
         return {"op": "iterate"}
+    if kind == "clone":
+        return {"op": "clone", "how": r.choice(["copy", "deepcopy", "pickle", "replace"]),
+                "target": r.choice([["chart"], ["chart"], target()])}
     t = target()
     names = FIELDS[t[0]] + (DERIVED.get(t[0]) or []) + ["verif_probe"]
     return {"op": "assign", "target": t, "attr": r.choice(names),
@@ -381,6 +384,31 @@ def do_op(chart: Any, twin: Any, op: dict[str, Any]) -> Any:
         if op["which"] == "during":
             return obj.tick_is_during_event(op["tick"])
         return obj.tick_is_after_event(op["tick"])
+    if k == "clone":
+        # copying / serialising / introspecting are read-only uses too; whether a copy can be
+        # made (and equals its original) is only compared with what a fresh parse gives
+        import copy
+        import dataclasses
+        import pickle
+
+        obj = _resolve(chart, op["target"])
+        if obj is None:
+            return "n/a"
+        how = op["how"]
+        if how == "copy":
+            c2 = copy.copy(obj)
+        elif how == "deepcopy":
+            c2 = copy.deepcopy(obj)
+        elif how == "pickle":
+            c2 = pickle.loads(pickle.dumps(obj))
+        elif how == "replace":
+            c2 = dataclasses.replace(obj) if dataclasses.is_dataclass(obj) else copy.copy(obj)
+        else:  # vars()/dir() are deliberately not used: they show lazily cached attributes
+            raise HarnessError(f"unknown clone kind {how}")
+        try:
+            return ["copied", bool(c2 == obj), scrub(repr(c2)) == scrub(repr(obj))]
+        except BaseException as e:  # noqa: BLE001
+            return ["copied", "compare-raised", type(e).__name__]
     if k == "iterate":
         out = []
         for inst, dd in chart.instrument_tracks.items():
